@@ -275,6 +275,66 @@ def traced_jobs(ctx):
     return jobs
 
 
+def run_container_walk(hist):
+    """One Container.tla random walk on a real (extensible) Trajectory."""
+    warnings.simplefilter('ignore')
+    try:
+        setup()
+        from AEIC.trajectories.trajectory import Trajectory
+
+        t = Trajectory()
+        t.set_phase(min(type(t._current_phase)))
+        names = [n for n in ('flight_time', 'altitude', 'aircraft_mass', 'fuel_mass', 'ground_distance', 'latitude')]
+
+        def value(v, k):
+            return float(v) * 10.0 + k
+
+        for si, ev in enumerate(hist):
+            op = ev['op']
+            try:
+                if op == 'append':
+                    pt = t.make_point()
+                    for f in pt._data_dictionary:
+                        setattr(pt, f, value(ev['arg'], names.index(f)) if f in names else float(ev['arg']))
+                    t.append(pt)
+                    got = ('yes', len(t))
+                elif op == 'point':
+                    pt = t.make_point(ev['arg'])
+                    vs = {float(getattr(pt, f)) - k for k, f in enumerate(names)}
+                    got = ('yes', (vs.pop() / 10.0) if len(vs) == 1 else f'inconsistent {sorted(vs)[:3]}')
+                elif op == 'len':
+                    got = ('yes', len(t))
+                elif op == 'read':
+                    cols = [[(float(x) - k) / 10.0 for x in getattr(t, f)] for k, f in enumerate(names)]
+                    got = ('yes', cols[0] if all(c == cols[0] for c in cols) else 'fields differ')
+                elif op == 'fix':
+                    t.fix()
+                    got = ('yes', 0)
+                elif op == 'copy':
+                    t = t.copy()
+                    cols = [[(float(x) - k) / 10.0 for x in getattr(t, f)] for k, f in enumerate(names)]
+                    got = ('yes', cols[0] if all(c == cols[0] for c in cols) else 'fields differ')
+                else:
+                    raise MachineryError(f'unknown container op {op}')
+            except MachineryError:
+                raise
+            except Exception as e:
+                got = ('no', f'{type(e).__name__}: {e}')
+            want_val = ev['val']
+            okmatch = got[0] == ev['ok']
+            valmatch = True
+            if okmatch and ev['ok'] == 'yes' and op in ('append', 'point', 'len', 'read', 'copy'):
+                valmatch = got[1] == want_val if not isinstance(want_val, list) else list(got[1]) == [float(x) for x in want_val] if isinstance(got[1], list) else False
+            if not (okmatch and valmatch):
+                size = sum(1 for e in hist[:si] if e['op'] == 'append' and e['ok'] == 'yes')
+                return [(f'container:{op}:{"refusal" if not okmatch else "value"}', f'after {size} appended points (capacity blocks of 50): {op}({ev["arg"]}) gave {got}; specification: ok={ev["ok"]} value {str(want_val)[:80]}')]
+        return []
+    except Exception as e:
+        import traceback
+
+        return [('machinery', f'{type(e).__name__}: {e}\n{traceback.format_exc()}')]
+
+
 def run(ctx: Ctx):
     ctx.rule = (
         'A: every (n_climb, n_cruise, n_descent) of the TLC case set (2..101, around the 50-point growth boundary) flown exactly with a '
@@ -313,6 +373,15 @@ def run(ctx: Ctx):
             if key == 'machinery':
                 raise MachineryError('flight worker failed: ' + desc)
             ctx.violation(key, desc, {'exact': [case, list(route)]})
+    tlc.check(ctx, 'container/Container', 'container/MC_Container.cfg', workers=8)
+    walks = tlc.check(ctx, 'container/ContainerGen', 'container/Sim_Container.cfg', workers=1, simulate=f'num={60 if ctx.quick else 600}', depth=210, seed=ctx.seed)['emitted']
+    ctx.log(f'container: {len(walks)} random walks of 200 calls on a real extensible Trajectory')
+    for hist, devs in zip(walks, pmap(run_container_walk, walks)):
+        ctx.case_done(('container', hist[:40]), nontrivial=True)
+        for key, desc in devs:
+            if key == 'machinery':
+                raise MachineryError('container worker failed: ' + desc)
+            ctx.violation(key, desc, {'container_walk': hist})
     tj = traced_jobs(ctx)
     ctx.log(f'tier B: {len(tj)} traced flights with the B738 table')
     traces, owner, rejected = [], {}, {}
